@@ -15,7 +15,7 @@ ENDINGS = ['normal', 'failing', 'hook_raise', 'kbd', 'stop']
 RULE = ('in-process runs in fresh interpreters for subsets of {--gc a [b c], -G flag, --coverage, --profile cProfile, --buffer, '
         'warnings argument, -D} x endings {normal, failing tests, exception escaping from a layer per-test hook, KeyboardInterrupt in a '
         'test, stop-on-error}: quick = pairwise covering sample plus random subsets, thorough = all 2^7 x 5 (with -D only where no '
-        'failure occurs); a probe test records the state during the test phase; some worlds add a test that itself meddles with sys.path and (where the matching option is active) gc thresholds, gc flags and warnings filters; non-trivial = at least two options active')
+        'result event would start the debugger); a probe test records the state during the test phase; some worlds add a test that itself meddles with sys.path and (where the matching option is active) gc thresholds, gc flags and warnings filters; non-trivial = at least two options active')
 EXHAUSTIVE = {'thorough': 'all 128 option subsets x 5 endings (-D restricted to failure-free endings)'}
 TRUSTED_BASE = ['gc, traceback, sys.settrace/threading trace hook, sys.monitoring profiler slot, warnings.filters, sys.stdout/err are '
                 'observed through a canonical snapshot taken before / during (inside a test) / after Runner.run()']
@@ -40,7 +40,9 @@ def mk(subset, ending, meddle=False):
         opts += ['--buffer']
     if 'warnings' in subset:
         world['warnings'] = 'always'
-    if 'D' in subset and ending == 'normal':
+    if 'D' in subset and ending in ('normal', 'hook_raise', 'kbd'):
+        # -D (post-mortem) wherever no test outcome would start the debugger: an exception out of a layer's per-test hook and a
+        # KeyboardInterrupt leave the run without a result event
         opts += ['-D']
     tests = [{'layer': 0, 'probe': True}, {'layer': 0}]
     if meddle:
@@ -89,6 +91,10 @@ def generate(rng, tier, rep):
         subsets = [set(), set(OPTS)] + [{a} for a in OPTS] + [{a, b} for a, b in itertools.combinations(OPTS, 2)]
         for i, sub in enumerate(subsets):
             for e in (ENDINGS if len(sub) <= 1 or i % 3 == 0 else [ENDINGS[i % 5], ENDINGS[(i + 2) % 5]]):
+                cases.append(mk(sub, e))
+        # --buffer with -D (no result event ever restores the streams when an exception leaves the run) under every ending
+        for sub in ({'buffer', 'D'}, {'buffer', 'D', 'gc', 'coverage'}):
+            for e in ENDINGS:
                 cases.append(mk(sub, e))
         for _ in range(40 if tier == 'quick' else 200):
             sub = set(o for o in OPTS if rng.random() < 0.5)
